@@ -26,10 +26,15 @@ def run(ctx):
     ctx.sample({"ocfg": traces[2]["ocfg"], "events": [e for e in traces[2]["events"] if e["e"] in ("run", "user_after")][:4]})
     O.validate(ctx, traces, "replay")
     C05.big_spaces(ctx, prop="C06", sched=("synchronous", "threads"), keep=not_zip_case)
+    from harness.drivers import _calib
+    _calib.check_isolation(ctx)
     ctx.assumptions += ["stateful probes: a counter kept in detector._memory and a list argument mutated in place; every "
                         "run must see the caller's original state", "the caller's detector, pipeline and readout are "
                         "compared field by field before/after (never with pyxel's ==)"]
 
 
 def replay(ctx, payload):
+    if payload["case"].get("kind") in ("eval", "calib"):
+        from harness.drivers import _calib
+        return _calib.replay(ctx, payload)
     return O.replay(ctx, payload)
